@@ -45,6 +45,18 @@ def _py_hash():
     return hashlib.sha1(repr(pyrandom.getstate()).encode()).hexdigest()[:16]
 
 
+def seed_id(seed):
+    """the seed id of the model: an int seeds as itself, a pair [a, b] (np.random.seed([pid, now])) as a * 2**32 + b"""
+    if seed is None:
+        return None
+    if isinstance(seed, (list, tuple, np.ndarray)):
+        out = 0
+        for v in list(seed):
+            out = out * 2 ** 32 + int(v)
+        return out
+    return int(seed)
+
+
 class Tracer:
     def __init__(self):
         self.events: list[dict] = []
@@ -140,7 +152,7 @@ class Tracer:
                 return orig_seed(seed)
             hb = _np_hash()
             orig_seed(seed)
-            tr.log(e="seed", st=NP, s=(None if seed is None else int(seed)), hb=hb, ha=_np_hash())
+            tr.log(e="seed", st=NP, s=seed_id(seed), hb=hb, ha=_np_hash())
         np.random.seed = np_seed
 
         orig_default_rng = np.random.default_rng
@@ -148,7 +160,7 @@ class Tracer:
 
         def default_rng(seed=None):
             if tr.active:
-                tr.log(e="default_rng", s=(None if seed is None else int(seed)))
+                tr.log(e="default_rng", s=seed_id(seed))
             return orig_default_rng(seed)
         np.random.default_rng = default_rng
 
@@ -176,7 +188,7 @@ class Tracer:
                 return orig_pyseed(a, version)
             hb = _py_hash()
             orig_pyseed(a, version)
-            tr.log(e="seed", st=PY, s=(None if a is None else int(a)), hb=hb, ha=_py_hash())
+            tr.log(e="seed", st=PY, s=seed_id(a), hb=hb, ha=_py_hash())
         pyrandom.seed = py_seed
 
         # ---- pre-drawn rows: tagging deque
@@ -207,9 +219,12 @@ class Tracer:
             _as_attribute(wrapper, cls, name)
             setattr(cls, name, wrapper)
 
+        from rpylib.process.coupling.couplinglevycopula import CouplingProcessLevyCopula
         wrap_sample(LevyProcess, "simulate_one_path")
         wrap_sample(CouplingMarkovChain, "simulate_one_path")
         wrap_sample(CouplingMarkovChain, "simulate_one_path_with_coupling")
+        wrap_sample(CouplingProcessLevyCopula, "simulate_one_path")
+        wrap_sample(CouplingProcessLevyCopula, "simulate_one_path_with_coupling")
 
         def wrap_pre(cls):
             orig = cls.pre_computation
@@ -227,6 +242,7 @@ class Tracer:
             cls.pre_computation = wrapper
         wrap_pre(LevyProcess)
         wrap_pre(CouplingMarkovChain)
+        wrap_pre(CouplingProcessLevyCopula)
 
         # ---- coupling decisions: which draws are made inside coupling_state, and which variate is really compared
         from rpylib.process.coupling.couplingmarkovchain import CouplingSimulation
@@ -411,6 +427,7 @@ class Canon:
         self.rowpos: dict[tuple, list] = {}
         self.chunk_starts: list[int] = []
         self.seeds: list[int] = []
+        self.gaps: list[int] = []
         self.uses: list[tuple] = []          # (value compared by a coupling decision, its position or None, sample number)
 
 
@@ -428,8 +445,17 @@ def canonical(events: list[dict], ambient: int = AMBIENT, rowpos: dict | None = 
     task_it = None
     in_dec = 0
     valpos: dict[float, list] = {}     # value of a uniform variate -> positions at which the generator produced it
+    last_state = {NP: None, PY: None}  # generator state after the last traced event of the stream
     for ev in events:
         e = ev["e"]
+        if e in ("seed", "draw"):
+            # continuity: the state before a traced call must be the state after the previous traced call of that
+            # stream; a gap means that something outside the traced entry points consumed or reset the generator
+            if last_state[ev["st"]] is not None and ev["hb"] != last_state[ev["st"]] and len(c.gaps) < 5:
+                c.gaps.append(len(c.events))
+                c.problems.append(f"the {'numpy' if ev['st'] == NP else 'python'} generator state changed between two traced calls "
+                                  f"(before event {len(c.events)}: an untraced source of randomness)")
+            last_state[ev["st"]] = ev["ha"]
         if e == "dec_begin":
             in_dec += 1
             continue
